@@ -182,6 +182,9 @@ def judge(family, case, rec):
     P = gmat.hostile_array(gmat.to_np(out), sum(out) + len(ext))
     before = P.copy()
     ctx = {"pdag": _gc.rows(out), "n_extensions": len(ext)}
+    if (sum(out) + len(out)) % 5 == 4:
+        # history across routines: related routines asked about the same graph first, their results overwritten by the caller
+        _gc.scribble_related(U, before, rec, ("all_dags", "pdag_to_cpdag", "only_directed", "only_undirected", "skeleton", "undirected_edges"))
 
     # pdag_to_dag
     try:
